@@ -174,6 +174,12 @@ class Driver:
     """Batch interface to the compiled Lean driver."""
 
     def __init__(self):
+        # VERIF_DRIVER_CMD lets a developer run a private driver file while a new
+        # family is not yet wired into Driver.lean (never set by registered checks)
+        self.cmd = None
+        if os.environ.get("VERIF_DRIVER_CMD"):
+            self.cmd = os.environ["VERIF_DRIVER_CMD"].split()
+            return
         if not DRIVER_BIN.exists():
             ok, log = lean_build(["driver"])
             if not ok:
@@ -184,7 +190,7 @@ class Driver:
         if not lines:
             return []
         data = "\n".join(lines) + "\n"
-        p = subprocess.run([str(DRIVER_BIN)], input=data, capture_output=True, text=True, timeout=3600)
+        p = subprocess.run(self.cmd or [str(DRIVER_BIN)], input=data, capture_output=True, text=True, timeout=3600, cwd=LEAN)
         if p.returncode != 0:
             raise RuntimeError(f"driver failed: {p.stderr[-500:]}")
         out = p.stdout.split("\n")
